@@ -6,6 +6,7 @@ import (
 	"crypto/sha256"
 	"encoding/hex"
 	"fmt"
+	"regexp"
 	"sort"
 	"strings"
 
@@ -35,6 +36,39 @@ func zlibBytes(b []byte) []byte {
 // an XMP metadata stream. Empty strings and strings with escapes are included (fixed text, not markers).
 // sig adds a signature field whose value dictionary has a /Contents hex string.
 func richDoc(version string, mk func(loc string) string, sig bool) *rawpdf.Doc {
+	return richDocForm(version, mk, sig, "literal")
+}
+
+// pdfString renders text as a PDF string object in the given form: "literal" (..), "hex" <..> or "utf16" (hex string
+// holding the UTF-16BE text string with byte order mark).
+func pdfString(text, form string) string {
+	switch form {
+	case "hex":
+		return "<" + hex.EncodeToString([]byte(text)) + ">"
+	case "utf16":
+		var b strings.Builder
+		b.WriteString("<FEFF")
+		for _, r := range text {
+			fmt.Fprintf(&b, "%04X", r)
+		}
+		return b.String() + ">"
+	}
+	return "(" + text + ")"
+}
+
+// markerForms lists the byte patterns under which text would be visible in a file if it were not encrypted.
+func markerForms(text string) [][]byte {
+	u16 := []byte{}
+	for _, r := range text {
+		u16 = append(u16, byte(r>>8), byte(r))
+	}
+	hx := hex.EncodeToString([]byte(text))
+	hx16 := hex.EncodeToString(u16)
+	return [][]byte{[]byte(text), []byte(hx), []byte(strings.ToUpper(hx)), u16, []byte(hx16), []byte(strings.ToUpper(hx16))}
+}
+
+func richDocForm(version string, mk func(loc string) string, sig bool, form string) *rawpdf.Doc {
+	S := func(loc string) string { return pdfString(mk(loc), form) }
 	d := &rawpdf.Doc{Version: version}
 	catalog := d.Reserve()
 	d.Root = catalog
@@ -48,15 +82,23 @@ func richDoc(version string, mk func(loc string) string, sig bool) *rawpdf.Doc {
 	hx := strings.ToUpper(hex.EncodeToString([]byte("% "+mk("asciihex")+"\n"))) + ">"
 	c3 := d.AddStream("/Filter /ASCIIHexDecode", []byte(hx))
 
-	annot := d.Add(fmt.Sprintf("<< /Type /Annot /Subtype /Text /Rect [10 10 40 40] /Contents (%s) /T (verif) /NM (a1) /P %d 0 R >>", mk("annot"), page1))
-	field := d.Add(fmt.Sprintf("<< /Type /Annot /Subtype /Widget /FT /Tx /T (f1) /TU (tooltip) /V (%s) /DV (%s) /DA (/Helv 12 Tf 0 g) /Rect [50 50 250 80] /P %d 0 R >>",
-		mk("form"), mk("form"), page1))
+	// private application data: nested arrays / dictionaries of strings and two streams, reachable only through a
+	// vendor-specific annotation entry (a processor that does not know the key never looks inside; pdfcpu's optimizer
+	// deliberately deletes /PieceInfo, so that is not used)
+	sdict := d.AddStream(fmt.Sprintf("/VerifNote %s /VerifList [(in-stream-dict) << /K (v) >>]", S("streamdict")), []byte("stream with strings in its dictionary"))
+	empty := d.AddStream("", nil)
+	priv := d.Add(fmt.Sprintf("<< /A [ %s [ (level two \\(with parens\\) \\\\ and \\101 octal) << /K %s /E () /H <> /Bin (\\000\\001\\377\\376) >> ] ] "+
+		"/D << /D2 << /S (deep string) /Hex <%s> /U16 <FEFF00500044004600E4> >> >> /Streams [%d 0 R %d 0 R] >>",
+		S("nested"), S("nested"), hex.EncodeToString([]byte(mk("hexstr"))), sdict, empty))
+	annot := d.Add(fmt.Sprintf("<< /Type /Annot /Subtype /Text /Rect [10 10 40 40] /Contents %s /T (verif) /NM (a1) /P %d 0 R /VERIF:Extras %d 0 R >>", S("annot"), page1, priv))
+	field := d.Add(fmt.Sprintf("<< /Type /Annot /Subtype /Widget /FT /Tx /T (f1) /TU (tooltip) /V %s /DV %s /DA (/Helv 12 Tf 0 g) /Rect [50 50 250 80] /P %d 0 R >>",
+		S("form"), S("form"), page1))
 	annots1 := fmt.Sprintf("%d 0 R %d 0 R", annot, field)
 	fields := fmt.Sprintf("%d 0 R", field)
 	if sig {
 		sigv := d.Add(fmt.Sprintf("<< /Type /Sig /Filter /Adobe.PPKLite /SubFilter /adbe.pkcs7.detached /ByteRange [0 10 20 10] /Contents <%s> /Name (signer) /M (D:20240101000000Z) >>",
 			hex.EncodeToString([]byte(mk("sigcontents")))))
-		sigf := d.Add(fmt.Sprintf("<< /Type /Annot /Subtype /Widget /FT /Sig /T (sig1) /Contents (%s) /V %d 0 R /F 132 /Rect [0 0 0 0] /P %d 0 R >>", mk("sigwidget"), sigv, page1))
+		sigf := d.Add(fmt.Sprintf("<< /Type /Annot /Subtype /Widget /FT /Sig /T (sig1) /Contents %s /V %d 0 R /F 132 /Rect [0 0 0 0] /P %d 0 R >>", S("sigwidget"), sigv, page1))
 		annots1 += fmt.Sprintf(" %d 0 R", sigf)
 		fields += fmt.Sprintf(" %d 0 R", sigf)
 	}
@@ -66,28 +108,22 @@ func richDoc(version string, mk func(loc string) string, sig bool) *rawpdf.Doc {
 	d.Set(pages, fmt.Sprintf("<< /Type /Pages /Count 2 /Kids [%d 0 R %d 0 R] /MediaBox [0 0 300 400] >>", page1, page2))
 
 	ef := d.AddStream("/Type /EmbeddedFile /Params << /Size 40 >>", []byte("attachment "+mk("embfile")+"\n"))
-	fs := d.Add(fmt.Sprintf("<< /Type /Filespec /F (%s.txt) /UF (%s.txt) /Desc (%s) /EF << /F %d 0 R /UF %d 0 R >> >>", mk("embname"), mk("embname"), mk("embname"), ef, ef))
-	names := d.Add(fmt.Sprintf("<< /EmbeddedFiles << /Names [(%s) %d 0 R] >> >>", mk("names"), fs))
+	fs := d.Add(fmt.Sprintf("<< /Type /Filespec /F %s /UF %s /Desc %s /EF << /F %d 0 R /UF %d 0 R >> >>", S("embname"), S("embname"), S("embname"), ef, ef))
+	names := d.Add(fmt.Sprintf("<< /EmbeddedFiles << /Names [%s %d 0 R] >> >>", S("names"), fs))
 
 	ol1 := d.Reserve()
 	outlines := d.Add(fmt.Sprintf("<< /Type /Outlines /First %d 0 R /Last %d 0 R /Count 1 >>", ol1, ol1))
-	d.Set(ol1, fmt.Sprintf("<< /Title (%s) /Parent %d 0 R /Dest [%d 0 R /Fit] >>", mk("outline"), outlines, page2))
+	d.Set(ol1, fmt.Sprintf("<< /Title %s /Parent %d 0 R /Dest [%d 0 R /Fit] >>", S("outline"), outlines, page2))
 
 	xmp := "<?xpacket begin='' id='W5M0MpCehiHzreSzNTczkc9d'?><x:xmpmeta xmlns:x='adobe:ns:meta/'><rdf:RDF xmlns:rdf='http://www.w3.org/1999/02/22-rdf-syntax-ns#'>" +
 		"<rdf:Description rdf:about='' xmlns:dc='http://purl.org/dc/elements/1.1/'><dc:title><rdf:Alt><rdf:li xml:lang='x-default'>" + mk("xmp") +
 		"</rdf:li></rdf:Alt></dc:title></rdf:Description></rdf:RDF></x:xmpmeta><?xpacket end='w'?>"
 	meta := d.AddStream("/Type /Metadata /Subtype /XML", []byte(xmp))
 
-	sdict := d.AddStream(fmt.Sprintf("/VerifNote (%s) /VerifList [(in-stream-dict) << /K (v) >>]", mk("streamdict")), []byte("stream with strings in its dictionary"))
-	empty := d.AddStream("", nil)
-	priv := d.Add(fmt.Sprintf("<< /A [ (%s) [ (level two \\(with parens\\) \\\\ and \\101 octal) << /K (%s) /E () /H <> /Bin (\\000\\001\\377\\376) >> ] ] "+
-		"/D << /D2 << /S (deep string) /Hex <%s> /U16 <FEFF00500044004600E4> >> >> /Streams [%d 0 R %d 0 R] >>",
-		mk("nested"), mk("nested"), hex.EncodeToString([]byte(mk("hexstr"))), sdict, empty))
-
-	d.Set(catalog, fmt.Sprintf("<< /Type /Catalog /Pages %d 0 R /Names %d 0 R /Outlines %d 0 R /Metadata %d 0 R /AcroForm << /Fields [%s] /DA (/Helv 12 Tf 0 g) /DR << /Font << /Helv %d 0 R >> >> >> /VerifData %d 0 R >>",
-		pages, names, outlines, meta, fields, font, priv))
+	d.Set(catalog, fmt.Sprintf("<< /Type /Catalog /Pages %d 0 R /Names %d 0 R /Outlines %d 0 R /Metadata %d 0 R /AcroForm << /Fields [%s] /DA (/Helv 12 Tf 0 g) /DR << /Font << /Helv %d 0 R >> >> >> >>",
+		pages, names, outlines, meta, fields, font))
 	if version != "2.0" {
-		d.Info = d.Add(fmt.Sprintf("<< /Title (%s) /Subject (sub \\(ject\\)) /Keywords () /VerifCustom (%s) /Author <FEFF004100FC> >>", mk("info"), mk("info")))
+		d.Info = d.Add(fmt.Sprintf("<< /Title %s /Subject (sub \\(ject\\)) /Keywords () /VerifCustom %s /Author <FEFF004100FC> >>", S("info"), S("info")))
 	} else {
 		d.Info = d.Add("<< /CreationDate (D:20240101000000Z) >>")
 	}
@@ -215,6 +251,63 @@ func canonOf(ctx *model.Context) (string, []string) {
 	return c.b.String(), c.errs
 }
 
+// xrefStreamBytes serialises d with a cross-reference stream and one (unfiltered) object stream holding every
+// non-stream object except the catalog - the layout for which pdfcpu writes object streams itself.
+func xrefStreamBytes(d *rawpdf.Doc) []byte {
+	var b bytes.Buffer
+	v := d.Version
+	if v == "" {
+		v = "1.7"
+	}
+	fmt.Fprintf(&b, "%%PDF-%s\n%%\xe2\xe3\xcf\xd3\n", v)
+	n := len(d.Objs)
+	osNum, xrNum := n+1, n+2
+	type ent struct{ typ, a, b int }
+	ents := make([]ent, n+3)
+	ents[0] = ent{0, 0, 65535}
+	var inStm []int
+	for i, body := range d.Objs {
+		num := i + 1
+		if body == "" {
+			ents[num] = ent{0, 0, 0}
+			continue
+		}
+		if strings.Contains(body, "\nstream\n") || num == d.Root {
+			ents[num] = ent{1, b.Len(), 0}
+			fmt.Fprintf(&b, "%d 0 obj\n%s\nendobj\n", num, body)
+			continue
+		}
+		inStm = append(inStm, num)
+	}
+	var head, data bytes.Buffer
+	for idx, num := range inStm {
+		fmt.Fprintf(&head, "%d %d ", num, data.Len())
+		data.WriteString(d.Objs[num-1])
+		data.WriteString("\n")
+		ents[num] = ent{2, osNum, idx}
+	}
+	head.WriteString("\n")
+	ents[osNum] = ent{1, b.Len(), 0}
+	fmt.Fprintf(&b, "%d 0 obj\n<< /Type /ObjStm /N %d /First %d /Length %d >>\nstream\n%s%s\nendstream\nendobj\n",
+		osNum, len(inStm), head.Len(), head.Len()+data.Len(), head.Bytes(), data.Bytes())
+	xrOff := b.Len()
+	ents[xrNum] = ent{1, xrOff, 0}
+	var xr bytes.Buffer
+	for _, e := range ents {
+		xr.WriteByte(byte(e.typ))
+		xr.Write([]byte{byte(e.a >> 24), byte(e.a >> 16), byte(e.a >> 8), byte(e.a)})
+		xr.Write([]byte{byte(e.b >> 8), byte(e.b)})
+	}
+	info := ""
+	if d.Info != 0 {
+		info = fmt.Sprintf(" /Info %d 0 R", d.Info)
+	}
+	fmt.Fprintf(&b, "%d 0 obj\n<< /Type /XRef /Size %d /W [1 4 2] /Root %d 0 R%s /Length %d >>\nstream\n", xrNum, n+3, d.Root, info, xr.Len())
+	b.Write(xr.Bytes())
+	fmt.Fprintf(&b, "\nendstream\nendobj\nstartxref\n%d\n%%%%EOF\n", xrOff)
+	return b.Bytes()
+}
+
 // firstDiff locates the first difference of two canonical texts for reporting.
 func firstDiff(a, b string) string {
 	n := len(a)
@@ -240,4 +333,23 @@ func firstDiff(a, b string) string {
 		return s[lo:hi]
 	}
 	return fmt.Sprintf("at %d: want ...%s... got ...%s...", i, cut(a), cut(b))
+}
+
+var keyRe = regexp.MustCompile(`/([A-Za-z0-9:_.]+) `)
+
+// diffWhere names the dictionary key under which two canonical texts first differ (stable part of a finding key).
+func diffWhere(a, b string) string {
+	n := len(a)
+	if len(b) < n {
+		n = len(b)
+	}
+	i := 0
+	for i < n && a[i] == b[i] {
+		i++
+	}
+	m := keyRe.FindAllStringSubmatch(a[:i], -1)
+	if len(m) == 0 {
+		return "start"
+	}
+	return m[len(m)-1][1]
 }
